@@ -293,6 +293,10 @@ func c17Levels(tier string) []core.Level {
 			for i := range c17OnceTpls {
 				emit(core.Case{Fam: "once", Src: c17OnceTpls[i], Args: []string{"once"}, N: []int{i}})
 			}
+			// 12 renderings cut short by a panic in a host callback: never reported as success
+			for i := range c17PanicTpls {
+				emit(core.Case{Fam: "hostpanic", Src: c17PanicTpls[i], Args: []string{"hostpanic"}, N: []int{i}})
+			}
 		}},
 		{Name: "run-time error (undefined filter / undefined function / non-iterable) placed at every position", Gen: func(emit func(core.Case)) {
 			prep()
@@ -484,6 +488,18 @@ func c17RunArg(c core.Case) core.Result {
 	return res
 }
 
+// c17PanicTpls: renderings cut short by a panic in a host callback (function, filter, test, String method), at the top
+// level and inside loops, includes, macros, captures and blocks
+var c17PanicTpls = []string{
+	"a{{ boom() }}b", "a{{ x|boomf }}b", "a{% if x is boomt %}y{% endif %}b", "a{{ bs }}b", "a{{ bs ~ 'x' }}b",
+	"a{% for i in l %}{{ i }}{{ boom() }}{% endfor %}b", "a{% include 'inc' %}{{ boom() }}b", "{% macro m(q) %}{{ boom() }}{% endmacro %}a{{ _self.m(1) }}b",
+	"a{% set c %}x{{ boom() }}{% endset %}b{{ c }}", "{% extends 'base2' %}{% block a %}o{{ boom() }}{% endblock %}", "a{% filter boomf %}x{% endfilter %}b", "a{{ f(boom()) }}b",
+}
+
+type c17BoomStringer struct{}
+
+func (c17BoomStringer) String() string { panic("boom in a String method") }
+
 // c17OnceTpls: templates whose output depends on how often they are rendered with the same environment and context
 var c17OnceTpls = []string{
 	"a{{ count() }}b",
@@ -585,6 +601,42 @@ func c17Run(c core.Case) core.Result {
 			return core.Violation("safe-wrote-on-failure", fmt.Sprintf("ExecuteSafe of %q with load %d failing: err=%v, wrote %q", name, j, s.err, s.w.chunks))
 		}
 		return core.Okay(true, fmt.Sprint(r.w.accepted.String(), j))
+	case "hostpanic":
+		// a callback of the host panics in the middle of a rendering: the panic reaches the caller or is reported as an
+		// error - the call never returns nil as if the (truncated) output were complete
+		tpl := c17PanicTpls[c.N[0]]
+		for _, safe := range []bool{false, true} {
+			env := stick.New(&stick.MemoryLoader{Templates: c17Tpls_(tpl)})
+			addStdCallbacks(env)
+			env.Functions["boom"] = func(ctx stick.Context, args ...stick.Value) stick.Value { panic("boom in a host function") }
+			env.Filters["boomf"] = func(ctx stick.Context, val stick.Value, args ...stick.Value) stick.Value {
+				panic("boom in a host filter")
+			}
+			env.Tests["boomt"] = func(ctx stick.Context, val stick.Value, args ...stick.Value) bool { panic("boom in a host test") }
+			var buf bytes.Buffer
+			var err error
+			panicked := false
+			func() {
+				defer func() {
+					if p := recover(); p != nil {
+						panicked = true
+					}
+				}()
+				ctx := map[string]stick.Value{"x": 1, "bs": c17BoomStringer{}, "l": []stick.Value{1, 2}}
+				if safe {
+					err = env.ExecuteSafe("main", &buf, ctx)
+				} else {
+					err = env.Execute("main", &buf, ctx)
+				}
+			}()
+			if !panicked && err == nil {
+				return core.Violation("error-swallowed", fmt.Sprintf("%q (safe=%v): a host callback panicked while rendering, yet the call returned nil after writing %q", tpl, safe, buf.String()))
+			}
+			if safe && buf.Len() != 0 {
+				return core.Violation("safe-wrote-on-failure", fmt.Sprintf("ExecuteSafe of %q wrote %q although rendering was cut short by a panic", tpl, buf.String()))
+			}
+		}
+		return core.Okay(true, "panic-reported")
 	case "loadlate":
 		// the loader fails at a load that a single rendering never reaches: a call that succeeds delivers the complete
 		// output, one that fails (an implementation may load more often) delivers a prefix - nothing, for ExecuteSafe
